@@ -81,3 +81,35 @@ Definition ms_after_put (s : memsrc) : memsrc := {| ms_data := ms_data s; ms_pos
 
 Definition put_src (H : bytes -> bytes) (fs : files) (id : bytes) (s : memsrc) (cut : bytes -> list bytes) (tm : Z) :=
   put H fs id (reader_of_memsrc s cut) tm.
+
+(* ---- histories that also contain Puts whose source looks something up, and Puts from positioned sources *)
+Inductive xhop :=
+| XPlain (o : hop)
+| XPutCb (id : bytes) (chunks : list bytes) (tm : Z) (c : call) (w : cbpoint)
+| XPutSrc (id : bytes) (s : memsrc) (cut : bytes -> list bytes) (tm : Z).
+
+Definition xhop_run (H : bytes -> bytes) (o : xhop) (fs : files) : files :=
+  match o with
+  | XPlain o => hop_run H o fs
+  | XPutCb id chunks tm c w => fst (fst (put_cb H id chunks tm c w fs))
+  | XPutSrc id s cut tm => fst (put_src H fs id s cut tm)
+  end.
+
+Definition xhistory_run (H : bytes -> bytes) (ops : list xhop) (fs : files) : files :=
+  fold_left (fun s o => xhop_run H o s) ops fs.
+
+(* the inner call is a lookup; the cut of a positioned source loses nothing *)
+Definition xhop_ok (o : xhop) : Prop :=
+  match o with
+  | XPlain _ => True
+  | XPutCb _ _ _ c _ => is_lookup c = true
+  | XPutSrc _ s cut _ => concat (cut (ms_data s)) = ms_data s
+  end.
+
+(* the same history with every such Put replaced by the plain Put of the whole data *)
+Definition xerase (o : xhop) : hop :=
+  match o with
+  | XPlain o => o
+  | XPutCb id chunks tm _ _ => HPut id (honest_reader chunks) tm
+  | XPutSrc id s cut tm => HPut id (honest_reader (cut (ms_data s))) tm
+  end.
